@@ -5,9 +5,9 @@ package main
 
 import (
 	"context"
-	"math"
 	"encoding/json"
 	"fmt"
+	"math"
 	"os"
 	"path/filepath"
 	"sort"
@@ -15,8 +15,8 @@ import (
 	"strings"
 	"time"
 
-	bs "github.com/danthegoodman1/bloomsearch"
 	"github.com/bits-and-blooms/bloom/v3"
+	bs "github.com/danthegoodman1/bloomsearch"
 )
 
 func init() { register("rsem", []string{"C01", "C02", "C18", "C24"}, runRsem) }
